@@ -20,7 +20,7 @@ from ..core.absint import Config, Interp
 from ..core.cfg import CFG
 from ..core.loader import AnalysisError, Project
 from ..core.values import Arr, ObjV, Sc, Seq, fix, fresh, rows
-from .common import local_names, own_analysis
+from .common import bind_call, canon_text, enclosing_iterations, expand_locals, fn_view, local_names, own_analysis
 from .distances import unmodelled_in
 
 EX = "persim.landscapes.exact.PersLandscapeExact"
@@ -91,7 +91,7 @@ def check_lazy(project: Project, rep):
     for cq in (EX, AP):
         c = project.cls(cq)
         fi = c.methods["compute_landscape"]
-        f = fi.node
+        f = fn_view(project, fi)
         cfg = CFG(f)
         stores = [n for n in ast.walk(f) if isinstance(n, ast.Assign) and isinstance(n.targets[0], ast.Attribute)
                   and isinstance(n.targets[0].value, ast.Name) and n.targets[0].value.id == "self"]
@@ -118,41 +118,77 @@ def check_lazy(project: Project, rep):
                                                f"computed: an operator overwrites its operand's data")
 
 
-def _guards_before_return(project, fi, attrs_needed):
-    """attributes compared (self.a != other.a → raise) on every path before the first result construction"""
-    f = fi.node
-    found = {}
-    for st in f.body:
-        if isinstance(st, ast.Return):
-            break
-        if isinstance(st, ast.If) and any(isinstance(x, ast.Raise) for x in st.body):
-            for x in ast.walk(st.test):
-                if isinstance(x, ast.Compare) and len(x.ops) == 1 and isinstance(x.ops[0], ast.NotEq):
-                    l, r = x.left, x.comparators[0]
-                    if isinstance(l, ast.Attribute) and isinstance(r, ast.Attribute) and l.attr == r.attr \
-                            and {ast.unparse(l.value), ast.unparse(r.value)} == {"self", "other"}:
-                        found[l.attr] = st
-        if isinstance(st, ast.Expr) and isinstance(st.value, ast.Call) and isinstance(st.value.func, ast.Attribute) \
-                and isinstance(st.value.func.value, ast.Call) and ast.unparse(st.value.func.value.func) == "super":
-            sup = fi.cls.lookup_super(st.value.func.attr, project)
-            if sup is not None:
-                found.update(_guards_before_return(project, sup, attrs_needed))
-    return found
+def _operand(I, cq, tag):
+    if cq == AP:
+        d, g = fresh(), fresh()
+        vals = Arr([(rows("D" + tag), d), (rows("G"), g)], sym.In("vals" + tag, ((d, 0), (g, 0))))
+        return I.construct(AP, [], {"start": Sc(sym.Sym("start_" + tag)), "stop": Sc(sym.Sym("stop_" + tag)),
+                                    "num_steps": Sc(sym.Sym("num_steps_" + tag)), "hom_deg": Sc(sym.Sym("hom_deg_" + tag)),
+                                    "values": vals}, None)
+    d, k, c = fresh(), fresh(), fresh()
+    cp = Arr([(rows("D" + tag), d), (rows("K" + tag), k), (fix(2), c)],
+             sym.Sel(c, (sym.In("cp" + tag, ((d, 0), (k, 0), 0)), sym.In("cp" + tag, ((d, 0), (k, 0), 1)))), "list")
+    return I.construct(EX, [], {"hom_deg": Sc(sym.Sym("hom_deg_" + tag)), "critical_pairs": cp}, None)
+
+
+def _eval_cond(cond, values):
+    import random
+    pt = symeval.Point(random.Random(7), nrows=3)
+    pt.syms.update(values)
+    return bool(symeval.ev(cond, pt))
 
 
 def check_guards(project: Project, rep):
+    """AR-GUARD, decided on the path condition of the statement that returns the sum: `__add__` is executed symbolically
+    on two landscapes whose degree / grid attributes are independent symbols; whatever form the guards take (inline
+    tests, a helper method, the base class), the facts known at the `return` must exclude a mismatch in every one of the
+    attributes and admit operands that agree in all of them."""
     oa = own_analysis(project)
     for cq, needed in ((EX, ["hom_deg"]), (AP, ["hom_deg", "start", "stop", "num_steps"])):
         c = project.cls(cq)
         add = c.methods["__add__"]
-        found = _guards_before_return(project, add, needed)
+        nm = cq.rsplit(".", 1)[1]
+        I = Interp(project, Config(nonempty={("rows", "Da"), ("rows", "Db"), ("rows", "Ka"), ("rows", "Kb"), ("rows", "G")},
+                                   finite_inputs={"cpa", "cpb", "valsa", "valsb"}))
+        x, y = _operand(I, cq, "a"), _operand(I, cq, "b")
+        try:
+            I.call_function(add, [x, y], {}, None)
+        except Exception as ex:  # the operands' data path is irrelevant here; the guards come first
+            rep.note(f"{nm}.__add__: symbolic execution stopped after the guards ({type(ex).__name__})")
+        rets = [ev for ev in I.log if ev["kind"] == "return" and ev["fi"] is add]
+        if not rets:
+            rep.unmodelled("AR-GUARD", add, add.node, f"{nm}.__add__: no return reached in symbolic execution")
+            continue
+        base = {}
+        for k, a in enumerate(needed):
+            base[f"{a}_a"] = base[f"{a}_b"] = 2.0 + k
         for a in needed:
-            if a in found:
-                rep.discharged("AR-GUARD", add, found[a], f"{cq.rsplit('.', 1)[1]}.__add__: mismatching `{a}` raises before the "
-                                                          f"sum is built")
+            verdicts = []
+            try:
+                for ev in rets:
+                    cond = sym.And(*ev["path"]) if ev["path"] else sym.TRUE
+                    mism = False
+                    for delta in (0.5, -0.5):
+                        vals = dict(base)
+                        vals[f"{a}_b"] = vals[f"{a}_a"] + delta
+                        mism = mism or _eval_cond(cond, vals)
+                    verdicts.append((mism, _eval_cond(cond, base), ev))
+            except symeval.NotEvaluable as ex:
+                rep.unmodelled("AR-GUARD", add, add.node, f"{nm}.__add__: path condition of the sum not evaluable ({ex})")
+                continue
+            leak = [ev for mism, _, ev in verdicts if mism]
+            if leak:
+                rep.refuted("AR-GUARD", add, leak[0]["node"],
+                            f"{nm}.__add__ builds a sum without rejecting operands whose `{a}` differ (facts known at the "
+                            f"return: {sym.show(sym.And(*leak[0]['path']) if leak[0]['path'] else sym.TRUE)[:160]})",
+                            construct=f"{add.qualname}: guard on {a}")
+            elif not any(eq for _, eq, _ in verdicts):
+                rep.refuted("AR-GUARD", add, add.node, f"{nm}.__add__ rejects operands that agree in degree and grid: no sum is "
+                                                       f"ever built", construct=f"{add.qualname}: over-strict guard")
             else:
-                rep.refuted("AR-GUARD", add, add.node, f"{cq.rsplit('.', 1)[1]}.__add__ builds a sum without rejecting operands "
-                                                       f"whose `{a}` differ", construct=f"{add.qualname}: guard on {a}")
+                rep.discharged("AR-GUARD", add, verdicts[0][2]["node"],
+                               f"{nm}.__add__: the sum is returned only on paths where `{a}` of both operands agree "
+                               f"(mismatch raises first)")
         sub = c.methods["__sub__"]
         s = oa.summary(sub.qualname)
         callees = {t for t, _ in s.repo_calls}
@@ -265,17 +301,44 @@ def check_unary(project: Project, rep):
                 rep.refuted("AR-UNARY", fi, fi.node, f"{cq.rsplit('.', 1)[1]}: division by zero does not raise")
     # average weights
     av = project.function("persim.landscapes.tools.average_approx")
-    coeffs = [k.value for n in ast.walk(av.node) if isinstance(n, ast.Call) for k in n.keywords if k.arg == "coeffs"]
-    if coeffs and isinstance(coeffs[0], ast.ListComp):
-        elt = ast.unparse(coeffs[0].elt).replace(" ", "")
-        it = ast.unparse(coeffs[0].generators[0].iter)
-        if elt in ("1.0/len(landscapes)", "1/len(landscapes)") and it == "landscapes":
-            rep.discharged("AR-UNARY", av, coeffs[0], "average = linear combination with weights 1/n, one per landscape")
-        else:
-            rep.refuted("AR-UNARY", av, coeffs[0], f"average uses coefficients [{ast.unparse(coeffs[0].elt)} for … in {it}] instead "
-                                                   f"of 1/n per landscape")
+    lc = project.function("persim.landscapes.tools.lc_approx")
+    f = fn_view(project, av)
+    locs = local_names(f)
+    calls = [n for n in ast.walk(f) if isinstance(n, ast.Call) and project.resolve(av.module, n.func, locs) == lc.qualname]
+    lands = av.params[0]
+    if len(calls) != 1 or len(lc.params) < 2:
+        rep.unmodelled("AR-UNARY", av, av.node, "average_approx does not delegate to lc_approx in one call")
     else:
-        rep.unmodelled("AR-UNARY", av, av.node, "averaging coefficients not found")
+        b_ = bind_call(lc.node, calls[0])
+        cexpr = b_.get(lc.params[1])
+        lexpr = b_.get(lc.params[0])
+        if cexpr is None or lexpr is None or canon_text(f, lexpr) != lands:
+            rep.unmodelled("AR-UNARY", av, av.node, "averaging coefficients not found")
+        else:
+            e = expand_locals(f, cexpr)
+            txt = ast.unparse(e).replace(" ", "")
+            inv = {f"1.0/len({lands})", f"1/len({lands})", f"1.0/float(len({lands}))"}
+            verdict = None
+            if isinstance(e, ast.ListComp) and len(e.generators) == 1 and not e.generators[0].ifs:
+                elt = ast.unparse(expand_locals(f, e.elt)).replace(" ", "")
+                it = ast.unparse(e.generators[0].iter).replace(" ", "")
+                per_item = it in (lands, f"range(len({lands}))")
+                if elt in inv and per_item:
+                    verdict = True
+                elif per_item and not any(isinstance(x, ast.Name) and x.id not in (lands, "len", "float")
+                                          for x in ast.walk(e.elt)):
+                    verdict = False  # one constant weight per landscape, but not 1/n
+            elif isinstance(e, ast.BinOp) and isinstance(e.op, ast.Mult):
+                l_, r_ = ast.unparse(e.left).replace(" ", ""), ast.unparse(e.right).replace(" ", "")
+                for x, y in ((l_, r_), (r_, l_)):
+                    if x.startswith("[") and x.endswith("]") and x[1:-1] in inv and y == f"len({lands})":
+                        verdict = True
+            if verdict is True:
+                rep.discharged("AR-UNARY", av, cexpr, "average = linear combination with weights 1/n, one per landscape")
+            elif verdict is False:
+                rep.refuted("AR-UNARY", av, cexpr, f"average uses coefficients {txt[:80]} instead of 1/n per landscape")
+            else:
+                rep.unmodelled("AR-UNARY", av, av.node, f"averaging coefficients `{txt[:80]}` not recognised")
 
 
 def check_pad_snap(project: Project, rep):
@@ -354,55 +417,83 @@ def check_pad_snap(project: Project, rep):
     # AR-SNAP
     sp = project.function("persim.landscapes.tools.snap_pl")
     rep.analysed(sp)
-    interps = [n for n in ast.walk(sp.node) if isinstance(n, ast.Call) and project.resolve(sp.module, n.func, local_names(sp.node)) == "numpy.interp"]
-    if len(interps) != 1:
+    f = fn_view(project, sp)
+    locs = local_names(f)
+    if len(sp.params) < 4:
+        rep.unmodelled("AR-SNAP", sp, sp.node, f"unexpected signature {sp.params}")
+        return
+    P_PLS, P_START, P_STOP, P_NUM = sp.params[:4]
+    interps = [n for n in ast.walk(f) if isinstance(n, ast.Call) and project.resolve(sp.module, n.func, locs) == "numpy.interp"]
+    if len(interps) != 1 or len(interps[0].args) < 3:
         rep.unmodelled("AR-SNAP", sp, sp.node, "interpolation call not found")
+        return
+    c = interps[0]
+    its = enclosing_iterations(f, c)
+    pl_var = inner_var = None
+    for tgt, it in its:
+        if isinstance(tgt, ast.Name) and ast.unparse(expand_locals(f, it)) == P_PLS:
+            pl_var = tgt.id
+    for tgt, it in its:
+        if isinstance(tgt, ast.Name) and pl_var is not None and ast.unparse(expand_locals(f, it)) in (pl_var, f"{pl_var}.values"):
+            inner_var = tgt.id
+
+    def lin(e):
+        """(a, b, n) texts if e is np.linspace(a, b, n)"""
+        e = expand_locals(f, e)
+        if isinstance(e, ast.Call) and project.resolve(sp.module, e.func, locs) == "numpy.linspace" and not e.keywords \
+                and len(e.args) == 3:
+            return tuple(ast.unparse(a_) for a_ in e.args)
+        if isinstance(e, ast.Call) and project.resolve(sp.module, e.func, locs) in ("numpy.array", "numpy.asarray") and e.args:
+            return lin(e.args[0])
+        return None
+    x, xp = lin(c.args[0]), lin(c.args[1])
+    fp = ast.unparse(expand_locals(f, c.args[2]))
+    if pl_var is None or inner_var is None or x is None or xp is None:
+        rep.unmodelled("AR-SNAP", sp, c, f"re-sampling np.interp({ast.unparse(c.args[0])}, {ast.unparse(c.args[1])}, "
+                                         f"{ast.unparse(c.args[2])}) not in a recognised form")
     else:
-        c = interps[0]
-        outer = [n for n in ast.walk(sp.node) if isinstance(n, ast.For) and any(x is c for x in ast.walk(n))]
-        pl_var = outer[0].target.id if outer and isinstance(outer[0].target, ast.Name) else None
-        inner_var = outer[-1].target.id if len(outer) > 1 and isinstance(outer[-1].target, ast.Name) else None
-        x, xp, fp = (ast.unparse(a) for a in c.args[:3])
-        grid_def = [n for n in ast.walk(sp.node) if isinstance(n, ast.Assign) and isinstance(n.targets[0], ast.Name)
-                    and n.targets[0].id == x]
-        ok_x = bool(grid_def) and ast.unparse(grid_def[0].value).replace(" ", "") == "np.linspace(start,stop,num_steps)"
-        ok_xp = pl_var is not None and xp.replace(" ", "") == f"np.linspace({pl_var}.start,{pl_var}.stop,{pl_var}.num_steps)"
-        ok_fp = inner_var is not None and fp == inner_var
+        ok_x = x == (P_START, P_STOP, P_NUM)
+        ok_xp = xp == (f"{pl_var}.start", f"{pl_var}.stop", f"{pl_var}.num_steps")
+        ok_fp = fp == inner_var
         if ok_x and ok_xp and ok_fp:
             rep.discharged("AR-SNAP", sp, c, "each depth is np.interp(new grid, the landscape's own grid, that depth's values)")
         else:
-            rep.refuted("AR-SNAP", sp, c, f"re-sampling is np.interp({x}, {xp}, {fp}): " +
+            rep.refuted("AR-SNAP", sp, c, f"re-sampling is np.interp(linspace{x}, linspace{xp}, {fp}): " +
                         ("the target is not the requested grid; " if not ok_x else "") +
                         ("the source abscissae are not the landscape's own grid; " if not ok_xp else "") +
                         ("the ordinates are not that depth's values" if not ok_fp else ""))
-        ctor = [n for n in ast.walk(sp.node) if isinstance(n, ast.Call) and project.resolve(sp.module, n.func, local_names(sp.node)) == AP]
-        if ctor:
-            kws = {k.arg: ast.unparse(k.value) for k in ctor[0].keywords}
-            want = {"start": "start", "stop": "stop", "num_steps": "num_steps", "hom_deg": f"{pl_var}.hom_deg"}
-            bad = {k: v for k, v in want.items() if kws.get(k) != v}
-            if not bad:
-                rep.discharged("AR-SNAP", sp, ctor[0], "the re-sampled landscape carries the new grid and the input's degree")
-            else:
-                rep.refuted("AR-SNAP", sp, ctor[0], f"the re-sampled landscape is built with {{{', '.join(f'{k}={kws.get(k)}' for k in bad)}}} "
-                                                    f"(expected {bad})")
+    ctor = [n for n in ast.walk(f) if isinstance(n, ast.Call) and project.resolve(sp.module, n.func, locs) == AP]
+    if ctor and pl_var is not None:
+        init = project.cls(AP).methods["__init__"]
+        kws = {k: ast.unparse(expand_locals(f, v)) for k, v in bind_call(init.node, ctor[0], receiver=True).items()}
+        want = {"start": P_START, "stop": P_STOP, "num_steps": P_NUM, "hom_deg": f"{pl_var}.hom_deg"}
+        bad = {k: v for k, v in want.items() if kws.get(k) != v}
+        if not bad:
+            rep.discharged("AR-SNAP", sp, ctor[0], "the re-sampled landscape carries the new grid and the input's degree")
+        else:
+            rep.refuted("AR-SNAP", sp, ctor[0], f"the re-sampled landscape is built with {{{', '.join(f'{k}={kws.get(k)}' for k in bad)}}} "
+                                                f"(expected {bad})")
+    else:
+        rep.unmodelled("AR-SNAP", sp, sp.node, "construction of the re-sampled landscape not found")
 
 
 def check_lincomb(project: Project, rep):
     """AR-LC: a linear combination is Σ coeff·landscape through the landscape operators (so zero padding of missing
     depths and the mismatch guards apply), or, when it works on raw value arrays, aligns depths by zero padding"""
     fi = project.function("persim.landscapes.tools.lc_approx")
-    f = fi.node
+    f = fn_view(project, fi)
     locs = local_names(f)
+    P_COEFFS = fi.params[1] if len(fi.params) > 1 else "coeffs"
     uses_values = [n for n in ast.walk(f) if isinstance(n, ast.Attribute) and n.attr == "values"]
     rets = [n for n in ast.walk(f) if isinstance(n, ast.Return) and n.value is not None]
     if not uses_values:
         ok = False
         for r in rets:
-            v = r.value
+            v = expand_locals(f, r.value)
             # np.sum(np.array(coeffs) * np.array(pl))  /  sum(c * p for ...)
             if isinstance(v, ast.Call) and project.resolve(fi.module, v.func, locs) in ("numpy.sum", "builtins.sum") and v.args:
                 prod = [x for x in ast.walk(v.args[0]) if isinstance(x, ast.BinOp) and isinstance(x.op, ast.Mult)]
-                if prod and any(isinstance(x, ast.Name) and x.id == "coeffs" for x in ast.walk(v.args[0])):
+                if prod and any(isinstance(x, ast.Name) and x.id == P_COEFFS for x in ast.walk(v.args[0])):
                     ok = True
         if ok:
             rep.discharged("AR-LC", fi, rets[0], "linear combination = Σ coeff·landscape through the landscape operators (their zero "
